@@ -24,7 +24,9 @@ Operations outside that theorem, and why:
     is a concrete instance.
   * fetch (`ReadBatchWith`/`Batch`): `fetch_aligned_or_closed`, for every message-set reader that conserves bytes, with
     the hypothesis that a response at the high watermark carries an empty set (`fetch_at_watermark_counterexample`).
-  * apiVersions: no `expectZeroSize`, no close on error in the Go code; tied by correspondence only (well-formed frames).
+  * apiVersions: no `expectZeroSize`, no close on error in the Go code, so nothing can be said about arbitrary bytes;
+    `apiVersions_aligned_wf`: on every well-formed v0 frame (any error code, any number of entries, anything after
+    the frame) the result is ok / that kafka error and exactly the frame is consumed.
 The D2 shape (no drain) is kept as `d2_regression_counterexample`: the theorem is false for it.
 -/
 import KafkaVerif.Lemmas.ConnOps
@@ -324,6 +326,76 @@ theorem listOffsets_gen_shape : ∃ o, specOf "listOffsets" = some o ∧
     o.parse 1 = readOffsetClosure [.int 4, .err, .int 8, .int 8] ∧ o.drain = false ∧ o.expectZero = true ∧
     (∀ t, o.post.eval t = fun _ => none) :=
   ⟨_, rfl, rfl, by decide, by decide, fun _ => rfl⟩
+
+/-! ### ApiVersions -/
+
+def encEntries : List (Bytes × Bytes × Bytes) → Bytes
+  | [] => []
+  | (a, b, c) :: r => a ++ (b ++ (c ++ encEntries r))
+
+def EntriesWF (es : List (Bytes × Bytes × Bytes)) : Prop := ∀ e ∈ es, e.1.length = 2 ∧ e.2.1.length = 2 ∧ e.2.2.length = 2
+
+theorem encEntries_length (es : List (Bytes × Bytes × Bytes)) (h : EntriesWF es) : (encEntries es).length = 6 * es.length := by
+  induction es with
+  | nil => rfl
+  | cons e r ih =>
+    obtain ⟨a, b, c⟩ := e
+    have he := h (a, b, c) (by simp)
+    have hr : EntriesWF r := fun x hx => h x (by simp [hx])
+    simp only [encEntries, List.length_append, List.length_cons, ih hr]
+    simp only at he
+    omega
+
+theorem errs_int (c : Ctx) (v : Int) : ({ c with evs := .int v :: c.evs } : Ctx).errs = c.errs := by
+  simp [Ctx.errs]
+
+/-- the entry loop of ApiVersions consumes exactly the entries and leaves the recorded error codes alone -/
+theorem iter_entries (es : List (Bytes × Bytes × Bytes)) (h : EntriesWF es) (rest : Bytes) (m : Nat) (c : Ctx) :
+    ∃ c', iter es.length (runSteps [.int 2, .int 2, .int 2]) c ⟨encEntries es ++ rest, 6 * es.length + m⟩ = (.ok c', ⟨rest, m⟩) ∧
+      c'.errs = c.errs := by
+  induction es generalizing c with
+  | nil => exact ⟨c, by simp [iter, encEntries], rfl⟩
+  | cons e r ih =>
+    obtain ⟨a, b, d⟩ := e
+    have he := h (a, b, d) (by simp)
+    simp only at he
+    have hr : EntriesWF r := fun x hx => h x (by simp [hx])
+    simp only [List.length_cons, iter, runSteps, runStep, lift, encEntries, List.append_assoc]
+    rw [readInt_app a _ 2 _ he.1 (by omega)]
+    simp only []
+    rw [readInt_app b _ 2 _ he.2.1 (by omega)]
+    simp only []
+    rw [readInt_app d _ 2 _ he.2.2 (by omega)]
+    simp only []
+    have hsz : 6 * (r.length + 1) + m - 2 - 2 - 2 = 6 * r.length + m := by omega
+    rw [hsz]
+    obtain ⟨c', h1, h2⟩ := ih hr { evs := .int (beInt d) :: .int (beInt b) :: .int (beInt a) :: c.evs, ver := c.ver, lastErr := c.lastErr, hwm := c.hwm, setSize := c.setSize }
+    refine ⟨c', h1, ?_⟩
+    rw [h2]
+    simp [Ctx.errs]
+
+/-- ApiVersions v0 (conn.go ApiVersions, no expectZeroSize): on every well-formed frame — any error code, any number
+of entries, anything after the frame — the result is ok / that kafka error and exactly the frame is consumed. -/
+theorem apiVersions_aligned_wf (topic err cnt rest : Bytes) (es : List (Bytes × Bytes × Bytes))
+    (he : err.length = 2) (hc : cnt.length = 4) (hcv : beInt cnt = es.length) (hes : EntriesWF es) :
+    ((specOf "apiVersions").map fun o =>
+      opRead o 0 topic ⟨err ++ (cnt ++ (encEntries es ++ rest)), 2 + (4 + 6 * es.length)⟩) =
+      some (if beInt err = 0 then .ok else .kafka (beInt err), ⟨rest, 0⟩) := by
+  obtain ⟨c', h1, h2⟩ := iter_entries es hes rest 0 { ver := 0, evs := [.err (beInt err)], lastErr := beInt err }
+  simp only [specOf, Option.map_some, opRead, apiVersionsParse]
+  generalize hB : [Step.int 2, Step.int 2, Step.int 2] = B at h1 ⊢
+  simp only [runSteps, runStep, lift]
+  rw [readInt_app err _ 2 _ he (by omega)]
+  simp only []
+  rw [readInt_app cnt _ 4 _ hc (by omega)]
+  simp only [hcv, Int.toNat_natCast]
+  have hsz : 2 + (4 + 6 * es.length) - 2 - 4 = 6 * es.length + 0 := by omega
+  rw [hsz]
+  rw [h1]
+  simp only [Bool.false_and, Bool.false_eq_true, ↓reduceIte, Post.eval, h2]
+  by_cases hz : beInt err = 0
+  · simp [hz, Ctx.errs]
+  · simp [hz, Ctx.errs]
 
 /-- a well-formed one-partition list-offsets error frame (error 3 = UnknownTopicOrPartition): aligned -/
 def listOffsets1 : Bytes :=
